@@ -726,4 +726,20 @@ func TestC13(t *testing.T) {
 			return p
 		},
 		func(p c13Plan) *viol { return c13Run(t, st, p) })
+
+	// a node stopped and started again while the operation of a re-initialisation is pending still offers it: the
+	// re-initialisation procedure of C20 with every node restarted between the reinit message and the operator's visit
+	rapidProp(t, st, "restart-with-pending-reinit", perShard(pick(16, 400)), 5,
+		func(rt *rapid.T) c20Plan {
+			nt := rapid.SampledFrom([][2]int{{2, 2}, {3, 2}, {3, 3}}).Draw(rt, "nt")
+			return c20Plan{N: nt[0], T: nt[1], Tape: rapid.SliceOfN(rapid.IntRange(0, 1000), 0, 20).Draw(rt, "tape"), Adapt014: rapid.Bool().Draw(rt, "adapt"),
+				Proposer: rapid.IntRange(0, nt[0]-1).Draw(rt, "proposer"), NodeRestart: true, Restart: rapid.Bool().Draw(rt, "restartAfter")}
+		},
+		func(p c20Plan) *viol {
+			v := c20Run(t, st, p)
+			if v != nil && v.Key == "pending-reinit-operation-lost-on-restart" {
+				v.Key = "pending-operation-lost-on-restart:reinit_dkg"
+			}
+			return v
+		})
 }
